@@ -13,6 +13,7 @@ import (
 	"encoding/json"
 	"fmt"
 	"go/types"
+	"math"
 	"reflect"
 	"sort"
 	"strconv"
@@ -80,6 +81,13 @@ func (in *Interp) jsonTree(v Value, t types.Type) Iface {
 	switch u := t.Underlying().(type) {
 	case *types.Basic:
 		switch {
+		case u.Info()&types.IsString != 0 && types.Identical(t, jt.number):
+			// json.Number is written as the number literal it holds ("" stands for 0)
+			ns := in.forceConc(v.(*Str), "json.Number")
+			if ns == "" {
+				ns = "0"
+			}
+			return Iface{T: jt.number, V: concStr(tf, ns)}
 		case u.Info()&types.IsString != 0:
 			return Iface{T: jt.str, V: v}
 		case u.Info()&types.IsBoolean != 0:
@@ -95,7 +103,7 @@ func (in *Interp) jsonTree(v Value, t types.Type) Iface {
 				n := in.concretizeInt(f.FromI, true)
 				return Iface{T: jt.number, V: concStr(tf, strconv.FormatInt(n, 10))}
 			}
-			return Iface{T: jt.number, V: concStr(tf, strconv.FormatFloat(f.Conc, 'g', -1, 64))}
+			return Iface{T: jt.number, V: concStr(tf, jsonFloatText(f.Conc))}
 		}
 	case *types.Pointer:
 		p := v.(PtrV)
@@ -174,6 +182,25 @@ func (in *Interp) jsonStructFields(sv *StructV, st *types.Struct, out *MapV) {
 		out.seq++
 		out.Entries = append(out.Entries, &MapEntry{K: concStr(in.tf, fi.name), V: in.jsonTree(fv, f.Type()), Seq: out.seq})
 	}
+}
+
+// jsonFloatText: a float64 as encoding/json writes it (ES6 style: %f unless the exponent is < -6 or >= 21).
+func jsonFloatText(f float64) string {
+	abs := math.Abs(f)
+	format := byte('f')
+	if abs != 0 && (abs < 1e-6 || abs >= 1e21) {
+		format = 'e'
+	}
+	b := strconv.AppendFloat(nil, f, format, -1, 64)
+	if format == 'e' {
+		// clean up e-09 to e-9
+		n := len(b)
+		if n >= 4 && b[n-4] == 'e' && b[n-3] == '-' && b[n-2] == '0' {
+			b[n-2] = b[n-1]
+			b = b[:n-1]
+		}
+	}
+	return string(b)
 }
 
 // jsonEmpty: encoding/json's notion of an empty value for omitempty.
@@ -351,6 +378,12 @@ func (in *Interp) simpleSprintf(format string, args SliceV) (*Str, bool) {
 		switch verb {
 		case 's', 'v':
 			s, ok := arg.(*Str)
+			if !ok {
+				// %s of a byte slice prints its bytes
+				if sl, isSl := arg.(SliceV); isSl && verb == 's' && sl.isByteSlice() {
+					s, ok = in.bytesToStr(sl), true
+				}
+			}
 			if !ok {
 				return nil, false
 			}
@@ -648,15 +681,47 @@ func (in *Interp) jsonDecode(tree Iface, t types.Type, cur Value, strict, useNum
 			return mismatch()
 		}
 		src := tree.V.(SliceV)
-		b := &Backing{E: make([]Value, src.Len)}
+		// as encoding/json does it: the slice already stored at the target is reused — elements are decoded
+		// INTO the existing backing array while the capacity lasts (stale elements are not cleared), the
+		// array is reallocated only when it is full, and the length is cut to the number of elements read
+		dst, _ := cur.(SliceV)
+		if dst.B == nil {
+			dst = SliceV{}
+		}
 		for i := 0; i < src.Len; i++ {
-			v, e := in.jsonDecode(src.B.E[src.Off+i].(Iface), u.Elem(), in.zero(u.Elem()), strict, useNumber)
+			if i >= dst.Cap {
+				ncap := 2 * dst.Cap
+				if ncap < i+1 {
+					ncap = i + 1
+				}
+				nb := &Backing{E: make([]Value, ncap)}
+				for k := 0; k < ncap; k++ {
+					if k < dst.Len {
+						nb.E[k] = dst.B.E[dst.Off+k]
+					} else {
+						nb.E[k] = in.zero(u.Elem())
+					}
+				}
+				dst = SliceV{B: nb, Off: 0, Len: dst.Len, Cap: ncap}
+			}
+			if i >= dst.Len {
+				dst.Len = i + 1
+			}
+			old := dst.B.E[dst.Off+i]
+			if old == nil {
+				old = in.zero(u.Elem())
+			}
+			v, e := in.jsonDecode(src.B.E[src.Off+i].(Iface), u.Elem(), old, strict, useNumber)
 			if e != "" {
 				return nil, e
 			}
-			b.E[i] = v
+			dst.B.E[dst.Off+i] = v
 		}
-		return SliceV{B: b, Len: src.Len, Cap: src.Len}, ""
+		if src.Len == 0 {
+			return SliceV{B: &Backing{}, Len: 0, Cap: 0}, ""
+		}
+		dst.Len = src.Len
+		return dst, ""
 	case *types.Map:
 		if kind != "object" {
 			return mismatch()
